@@ -146,6 +146,13 @@ def _viol(clause, rec, detail, **extra):
 
 
 def _check(state, rec):
+    try:
+        return _check_inner(state, rec)
+    except Exception as e:  # the registry's own getters must never fail
+        return _viol("registry-view", rec, f"reading the registry back raised {type(e).__name__}: {e}", exception=type(e).__name__)
+
+
+def _check_inner(state, rec):
     from pyimpspec import parse_cdc
     from pyimpspec.circuit.registry import get_elements
     import pyimpspec.exceptions as pex
